@@ -1,5 +1,6 @@
 import ast
 import itertools
+import keyword
 from abc import ABC, abstractmethod
 from ast import AST
 from collections import defaultdict
@@ -47,6 +48,8 @@ class GenState:
 
     def register_mangled(self, base: str, obj: object) -> str:
         base = self._name_sanitizer.sanitize(base)
+        if base == "" or keyword.iskeyword(base):
+            base += "_"
         if self._namespace.try_add_constant(base, obj):
             return base
 
